@@ -87,6 +87,9 @@ class Ctx:
         self.input_symbols: dict[str, Any] = {}
         self.havoc_used = False
         self.prove_timeout_ms = prove_timeout_ms
+        self.cross_check_every = 0      # keep the SMT2 text of every n-th discharged obligation (0: none)
+        self.cross_check_kept = 0
+        self.discharged_seen = 0
         self.solver_s = 0.0
         self.paths = 0
         self.name_prefix = ""
@@ -282,6 +285,20 @@ class Ctx:
                 ob.seconds = time.time() - started
                 if res == z3.unsat:
                     ob.status = "discharged"
+                    # thorough tier: a sample of the discharged obligations is re-asked of the second solver
+                    self.discharged_seen += 1
+                    if self.cross_check_every and self.discharged_seen % self.cross_check_every == 1 \
+                            and self.cross_check_kept < 25:
+                        try:
+                            tmp = z3.Solver()
+                            tmp.add(*self.axioms)
+                            tmp.add(*self.ghost_axioms)
+                            tmp.add(*self.pc)
+                            tmp.add(z3.Not(goal))
+                            ob.smt2 = tmp.to_smt2()
+                            self.cross_check_kept += 1
+                        except Exception:  # pylint: disable=broad-except
+                            ob.smt2 = None
                 elif res == z3.sat:
                     ob.status = "failed"
                     ob.model = self.model_values()
